@@ -329,14 +329,30 @@ func tcpMonitors(ctx *Ctx, prop string, cs *tcpCaseSpec, i int, sp *tcpConnSpec,
 		}
 		// the two directions are independent: what the target says reaches the client without
 		// waiting for the client to send or close (the harness' client half-closes only after 1.1 s)
-		if !sp.Fin && len(tout) > 0 && sp.Corrupt == 0 && (ob.FirstDownMs < 0 || ob.FirstDownMs > 900) {
-			ctx.Monitor("C02/downstream-waits-for-client", fmt.Sprintf("the target spoke at once but its first byte reached the silent client after %d ms (the client half-closed at 1100 ms)", ob.FirstDownMs), rep)
+		stalled := func(o *tcpObs) bool { return o.FirstDownMs < 0 || o.FirstDownMs > 900 }
+		if !sp.Fin && len(tout) > 0 && sp.Corrupt == 0 && stalled(ob) {
+			// a timing verdict: confirm it twice on the same connection run alone (a single stall
+			// can be the machine, three in a row are the server)
+			again := 0
+			for k := 0; k < 2; k++ {
+				one := tcpCaseSpec{Cfg: cs.Cfg, Cap: cs.Cap, Conns: []tcpConnSpec{*sp}}
+				if o2 := runTCPCase(&one); len(o2) == 1 && o2[0].Status == "OK" && stalled(&o2[0]) {
+					again++
+				}
+			}
+			ctx.Count("downstream-stall-suspected")
+			if again < 2 {
+				ctx.Count("downstream-stall-not-confirmed")
+			}
+			if again == 2 {
+				ctx.Monitor("C02/downstream-waits-for-client", fmt.Sprintf("the target spoke at once but its first byte reached the silent client after %d ms (the client half-closed at 1100 ms); confirmed on two more runs of the same connection", ob.FirstDownMs), rep)
+			}
 		}
 		if !bytes.Equal(ob.ClientPlain, tout) {
 			ctx.Monitor("C02/downstream-not-intact", fmt.Sprintf("client decrypted %d bytes (cksum %d), target sent %d (cksum %d)", len(ob.ClientPlain), cksum(ob.ClientPlain), len(tout), cksum(tout)), rep)
 		}
 	}
-	validKind := sp.AKind <= 3 || (sp.AKind >= 4 && sp.AKind <= 15) || sp.AKind == 21 || (sp.AKind >= 30 && sp.AKind <= 32)
+	validKind := sp.AKind <= 3 || (sp.AKind >= 4 && sp.AKind <= 15 && sp.AKind != 9) || sp.AKind == 21 || (sp.AKind >= 30 && sp.AKind <= 32)
 	if sp.Kind == "honest" && sp.Corrupt == 0 && validKind && (!sp.Validate || tcpKindPublic(sp.AKind)) && sp.ConnectOK {
 		inCfg := false
 		for _, k := range cs.Cfg {
